@@ -268,6 +268,8 @@ pub struct CustomSpec {
     /// canonical order type,import,func,table,memory,global,export,start,elem,datacount,code,data);
     /// 0 = first thing after the header; 255 = after everything (but see `names_last`).
     pub before: u8,
+    /// encode the length of the name with this many extra (padding) LEB bytes
+    pub name_len_pad: u8,
 }
 
 #[derive(Clone, Debug, Default, PartialEq)]
@@ -370,8 +372,26 @@ pub fn section(out: &mut Vec<u8>, id: u8, body: &[u8], pad: u8) {
 }
 
 pub fn custom_section(out: &mut Vec<u8>, nm: &str, data: &[u8]) {
+    custom_section_padded(out, nm, data, 0)
+}
+
+/// `pad` extra bytes in the LEB that gives the length of the name (a non-minimal but valid encoding)
+pub fn custom_section_padded(out: &mut Vec<u8>, nm: &str, data: &[u8], pad: u8) {
     let mut body = Vec::new();
-    name(&mut body, nm);
+    if pad == 0 {
+        name(&mut body, nm);
+    } else {
+        let mut l = Vec::new();
+        leb_u32(&mut l, nm.len() as u32);
+        let n = l.len();
+        l[n - 1] |= 0x80;
+        for _ in 1..pad.min((5 - n) as u8) {
+            l.push(0x80);
+        }
+        l.push(0x00);
+        body.extend_from_slice(&l);
+        body.extend_from_slice(nm.as_bytes());
+    }
     body.extend_from_slice(data);
     section(out, 0, &body, 0);
 }
@@ -516,7 +536,7 @@ impl MSpec {
         out.extend_from_slice(b"\0asm\x01\0\0\0");
         let customs_at = |out: &mut Vec<u8>, at: u8| {
             for c in self.customs.iter().filter(|c| c.before == at) {
-                custom_section(out, &c.name, &c.data);
+                custom_section_padded(out, &c.name, &c.data, c.name_len_pad);
             }
         };
         let meta = |out: &mut Vec<u8>| {
